@@ -512,10 +512,13 @@ def build(case):
     else:
         z0, L = case['z0'], case['L']
         tp = TemperatureParameters(lambda z, t: T0 + grad * (np.asarray(z) - z0) / L + rate * t * 1e-3)
+    # a model built WITHOUT a boundary-condition object is built without the keyword (passing None explicitly would bypass the
+    # constructor's default, and with it any state a mutable default shares between models)
+    bckw = {} if bc0 is None else {'boundaryConditions': bc0}
     if case['model'] == 'single':
         therm = SingleStub(case['therm'], E, case['tseed'], case['scale'])
         m = SinglePhaseModel(zlim, N, names, ['ALPHA'], thermodynamics=therm, temperatureParameters=tp,
-                             compositionProfile=cp, record=case['record'], boundaryConditions=bc0)
+                             compositionProfile=cp, record=case['record'], **bckw)
     else:
         therm = HomStub(case['therm'], names, case['tseed'], case['scale'], case['nphases'], case['mobless'] and case['nphases'] == 2)
         hf = case['hfunc']
@@ -523,7 +526,7 @@ def build(case):
             hf = 'wiener upper'
         hp = HomogenizationParameters(hf, eps=case['heps'], postProcessFunction=case['hpost'])
         m = HomogenizationModel(zlim, N, names, therm.phases, thermodynamics=therm, temperatureParameters=tp,
-                                compositionProfile=cp, homogenizationParameters=hp, record=case['record'], boundaryConditions=bc0)
+                                compositionProfile=cp, homogenizationParameters=hp, record=case['record'], **bckw)
     m.constraints.minComposition = case['minC']
     entry = enter_rest(pending, m, m.boundaryConditions)
     spec = spec_from_tables(ref_bc_tables(bcops_of(case), E)[-1][0] if bcops_of(case) else {}, E, fs)
